@@ -167,13 +167,14 @@ def history_rule(chk, rule_prefix, file="circuit.py"):
         except Unsupported as e:
             raise AnalysisError(f"history {name}: unrecognised idiom: {e}", file)
         prob = None
+        n_steps += len(steps)
         for s in steps:
-            n_steps += 1
             bad = illegal(s["state_repo"])
             if bad:
                 prob = {"problem": "wiring invariant broken after a call", "step": s["i"], "call": s["op"], "illegal": bad[:3]}
                 break
-            if s["repo"][0] != s["reference"][0] or (s["repo"][0] == "raise" and s["repo"][1] != s["reference"][1]):
+            # the exception *kind* is part of the documented behaviour only for rejected construction calls (ValueError)
+            if s["repo"][0] != s["reference"][0] or (s["repo"][0] == "raise" and s["reference"][1] == "ValueError" and s["repo"][1] != "ValueError"):
                 prob = {"problem": "call outcome differs from the documented behaviour", "step": s["i"], "call": s["op"], "repository": s["repo"], "reference": s["reference"]}
                 break
             if s["repo"][0] == "ok" and s["repo"][1] != s["reference"][1]:
